@@ -18,6 +18,26 @@ PAIRS = [("v2c", "v3-md5-des"), ("v1", "v3-sha1-aes"), ("v3-noauth", "v2c"), ("v
 BIG = ["1.3.6.1.4.1.%d.%d.%d" % (100000 + i, 200000 + i, 300000 + i) for i in range(420)]
 
 
+def long_oid(content_len, rng):
+    """dotted OID whose BER contents are exactly content_len octets (<= 128 arcs)"""
+    arcs = ["1", "3"]
+    left = content_len - 1
+    while left > 0:
+        k = min(left, rng.choice([1, 2, 3, 4, 5]))
+        if left - k == 0 or len(arcs) < 120:
+            pass
+        else:
+            k = min(left, 5)
+        lo = 0 if k == 1 else 128 ** (k - 1)
+        hi = min(128 ** k - 1, 2 ** 32 - 1)
+        if lo > hi:
+            k = 4
+            lo, hi = 128 ** 3, 128 ** 4 - 1
+        arcs.append(str(rng.randrange(lo, hi + 1)))
+        left -= k
+    return ".".join(arcs)
+
+
 def mc_pool(maxlen, dev=False, export=False):
     txt = ("SPECIFICATION Spec\nCONSTANTS\n  Sessions <- SessionsDef\n  Ops <- OpsDef\n  Fates <- FatesDef\n  MaxLen = %d\n  DEV_NoResetOnDrop = %s\n"
            "INVARIANTS MessagesStartEmpty PoolBounded%s\nCHECK_DEADLOCK FALSE\n" % (maxlen, "TRUE" if dev else "FALSE", " ExportDone" if export else ""))
@@ -146,6 +166,10 @@ def run(tier):
             n = rng.choice([1, 2, 3, 8, 30]) if op == "get_many" else 1
             oids = [".".join([str(rng.choice([0, 1, 2])), str(rng.randrange(40))] + [str(rng.choice([rng.randrange(2 ** 32), rng.randrange(300), 127, 128, 16383, 16384]))
                                                                                       for _ in range(rng.randrange(0, 14))]) for _ in range(n)]
+            if rng.random() < 0.25:
+                # OIDs whose encoded contents cross the 127/128 and 255/256 length-form boundaries
+                tgt = rng.choice([126, 127, 128, 129, 130, 254, 255, 256, 257, 300])
+                oids = [long_oid(tgt + rng.choice([0, 0, 1, -1]), rng) for _ in range(n if n < 4 else 2)]
             mr = rng.choice([1, 2, 127, 128, 255, 256, 65535, 65536, 2 ** 31 - 1, rng.randrange(1, 2 ** 31)])
             s.send(op, oids, maxrep=mr if op == "getbulk" else None)
         s.close()
